@@ -142,13 +142,15 @@ def c13(ck):
     rnd = ck.rnd
     pool = list(S.SUPPORTED.values()) + [g for gs in S.GROUPS.values() for g in [" \n".join(gs)]] + ["SET hive.x = 1;", "-- a comment line\nCREATE TABLE c1 (x int); -- trailing"]
     # session settings of several shapes (list values, TO, no '='): whatever the flat result reports for them has a bucket
+    # a TABLESPACE clause on non-table statements: the entity keeps ONE kind
+    pool += ["CREATE DATABASE sales TABLESPACE salesspace;", "CREATE SCHEMA s9 TABLESPACE ts9;", "CREATE TYPE ty9 AS ENUM ('a') TABLESPACE x9;"]
     pool += ["SET search_path = app, public;", "SET search_path TO app, audit, public;", "SET statement_timeout = 0;", "SET NAMES utf8mb4;",
              "SET hive.exec.dynamic.partition.mode=nonstrict;"]
     scripts = [[s] for s in pool]
     for i in range(60 if ck.quick() else 600):
         scripts.append(rnd.sample(pool, rnd.randint(2, 6)))
     # statements whose target table is not defined in the script: flat and grouped agree (both raise, or both report it)
-    orphans = ["ALTER TABLE nowhere ADD COLUMN c int;", "CREATE INDEX ix_nowhere ON nowhere (c);", "ALTER TABLE s1.nowhere ADD CONSTRAINT pk_n PRIMARY KEY (id);"]
+    orphans = ["ALTER TABLE nowhere ADD c int;", "CREATE INDEX ix_nowhere ON nowhere (c);", "ALTER TABLE s1.nowhere ADD CONSTRAINT pk_n PRIMARY KEY (id);"]
     for o in orphans:
         scripts.append([o])
         for s in rnd.sample(pool, 4):
@@ -183,7 +185,9 @@ def c13(ck):
                 for e in flat[1]:
                     marks = [k for k in list(buckets) + ["comments"] if k in e]
                     if len(marks) != 1:
-                        ck.notes.setdefault("items_without_exactly_one_marker", []).append(jdump(e)[:200])
+                        # "the bucket of its kind" presupposes that an entity has ONE kind: an entity carrying two kind keys
+                        # (or none) is filed by whichever key the grouping looks at first
+                        problems.append("flat entity with kind keys %s: its kind is ambiguous" % marks)
                     if "comments" in e and len(marks) == 1:
                         comments.extend(e["comments"])
                         continue
@@ -205,6 +209,16 @@ def c13(ck):
                         problems.append("bucket %s differs" % b)
                 if g.get("comments", []) != comments:
                     problems.append("comments differ")
+            if not problems and si % 5 == 0:
+                # writing the dump file does not change what is returned
+                import os as _os, tempfile as _tf, shutil as _sh
+                dd = _tf.mkdtemp(prefix="c13dump_")
+                try:
+                    dumped = parse(ddl, output_mode=mode, group_by_type=True, dump=True, dump_path=dd, file_path=_os.path.join(dd, "script.sql"))
+                finally:
+                    _sh.rmtree(dd, ignore_errors=True)
+                if dumped != grouped:
+                    problems.append("grouped result with dump=True differs from the result without dump")
             if problems:
                 ck.fail("flat-vs-grouped", key, "c13:" + problems[0].split()[0] + "-" + problems[0].split()[-1], dict(ddl=ddl, run=dict(output_mode=mode), problems=problems, observed=g, flat=flat[1]))
             else:
@@ -216,6 +230,10 @@ def c13(ck):
 # ------------------------------------------------------------------ C03
 def _units():
     units = [(k, [v]) for k, v in S.SUPPORTED.items()] + [(k, v) for k, v in S.GROUPS.items()]
+    # statements that carry a comment of each style: what a comment line is does not depend on the neighbours' comments
+    units += [("hash-comment-inside", ["CREATE TABLE hc (\n    id int,\n# the customer that placed the order\n    customer_id int,\n    total decimal(10,2)\n);"]),
+              ("dash-comment-inside", ["CREATE TABLE dc (\n    id int, -- the key\n    note varchar(20)\n);"]),
+              ("block-comment-before", ["/* audit trail */\nCREATE TABLE bc (x int, y int);"])]
     return units
 
 
